@@ -35,7 +35,7 @@ theorem call_ok_frame (s : Proto) (d : List UInt8) (sq id : Nat) (name : String)
     (hwf : ∀ eid fid, s.awaiting.lookup sq = some (eid, fid) → fid < s.futs.length) :
     (handler_call d s).2.awaiting = (if (s.awaiting.lookup sq).isSome then s.awaiting.filter (·.1 != sq) else s.awaiting) ∧
     (handler_call d s).2.version = s.version ∧ (handler_call d s).2.cmds = s.cmds ∧ (handler_call d s).2.seq = s.seq ∧
-    (handler_call d s).2.script = s.script ∧
+    (handler_call d s).2.script = s.script ∧ (handler_call d s).2.protocol = s.protocol ∧
     ((handler_call d s).1 = .ok () ∨ ∃ c, c ∈ okClasses ∧ (handler_call d s).1 = .error (.raised c)) := by
   obtain ⟨pl, c, hr, hf, hnm, hd⟩ := rx_ok_parts _ _ _ _ _ _ _ _ h
   rcases frameRx_eq s d with ⟨r, hr', he⟩ | ⟨hr', -⟩
